@@ -282,6 +282,29 @@ vf::Outcome run_case(const vf::Case& c, const vf::RunCtx& ctx) {
       }
       k.require("Random=elementwise", match, "Bundle::Random() is not the elements' Random() for the same random-number state");
     }
+    // the same on the tangent side: BundleTangent::Random() / setRandom() are the element tangents' Random() at their offsets
+    {
+      const unsigned sd = (unsigned)(c.ints[0] * 104729 + 7);
+      for (int via = 0; via < 2; ++via) {
+        std::srand(sd);
+        TangentT Tb; if (via == 0) Tb = TangentT::Random(); else { Tb.setZero(); Tb.setRandom(); }
+        bool match = false;
+        for (int order = 0; order < 2 && !match; ++order) {
+          std::srand(sd);
+          typename TangentT::DataType d;
+          auto draw = [&](auto Ic) {
+            constexpr int I = decltype(Ic)::value;
+            using E = typename TangentT::template Element<I>;
+            d.template segment<E::DoF>(s.dof_off(I)) = E::Random().coeffs();
+          };
+          if (order == 0) for_each_elem(draw);
+          else for_each_impl_rev(draw, std::make_integer_sequence<int, NB>{});
+          match = std::memcmp(d.data(), Tb.data(), sizeof(Scalar) * Dof) == 0;
+        }
+        k.require(via == 0 ? "tangent Random=elementwise" : "tangent setRandom=elementwise", match,
+                  "BundleTangent::Random()/setRandom() is not the element tangents' Random() for the same random-number state");
+      }
+    }
     // Random(): every element valid
     {
       const GroupT Rn = GroupT::Random();
